@@ -6,12 +6,14 @@ import Driver.Parse
 import Driver.Proc
 import Driver.Fill
 import Driver.Live
+import Driver.Json
+import Driver.ArpCache
 
 /-!
 Line-protocol driver: one case per input line, `tag \t fields… \t observed`, one answer per line,
 `model-output \t spec-verdict` (`1` = the Spec predicate holds of the *observed* output).
 -/
-open Driver
+open Driver Driver.J Driver.A
 
 def dispatch (line : String) : String :=
   match splitTabs line with
@@ -31,6 +33,9 @@ def dispatch (line : String) : String :=
   | "ptcpflags" :: rest => (handlePTCPFlags rest).getD "BAD-CASE\t0"
   | "pportsfile" :: rest => (handlePPortsFile rest).getD "BAD-CASE\t0"
   | "pexclfile" :: rest => (handlePExclFile rest).getD "BAD-CASE\t0"
+  | "jres" :: rest => (handleJRes rest).getD "BAD-CASE\t0"
+  | "jlog" :: rest => (handleJLog rest).getD "BAD-CASE\t0"
+  | "arpc" :: rest => (handleArpC rest).getD "BAD-CASE\t0"
   | _ => "BAD-TAG\t0"
 
 partial def loop (h : IO.FS.Stream) (out : IO.FS.Stream) : IO Unit := do
